@@ -337,11 +337,10 @@ def run(prop, tier, seed):
     for r in verus_results:
         rel = set(f['name'] for f in r.get('functions', []) if prop in f.get('serves', []) and not f.get('stub'))
         rel |= set(a['name'] for a in r.get('aux_fns', []) if prop in a.get('serves', []))
-        rel_last = set(n.split('::')[-1] for n in rel if '::' not in n) | rel
         seen = set()
         for f in r.get('per_function', []):
             nm = f['function']
-            if f.get('ok') and nm != 'verif_canary_must_fail' and (nm in rel_last or nm.split('::')[-1] in set(x for x in rel if '::' not in x)) and nm not in seen:
+            if f.get('ok') and nm != 'verif_canary_must_fail' and nm in rel and nm not in seen:     # exact names only (`X::clone` never matches an overlay's `clone`)
                 seen.add(nm)
                 counted_units.append('%s:%s' % (r['kernel'], nm))
     n_v_units = len(counted_units)
